@@ -12,6 +12,9 @@ Core Lean only.
 
 `pf` is `strconv.ParseFloat(·, 64)` (Model/CtorNum.lean), a parameter.
 
+* a wrapper type has its own `Name()` — `Optional`, `NotUndef`, `Variant`, the name of an alias — under which no constructor
+  is registered: `new` on it reports INSTANCE_DOES_NOT_RESPOND, and `Init[wrapper]` CTOR_NOT_FOUND, whatever is wrapped.
+  The wrapped type's constructor is reached only by `CoerceTo` through `Optional` (Model/CtorCoerce.lean).
 * `String` has a constructor that is *not* modelled (formatting): `ctorOf` answers `unmodelled` and the driver refuses
   the op (the generator never emits it).
 -/
@@ -38,10 +41,10 @@ def ctorOf : Ty → CtorLookup
   | .str _ _ => .unmodelled
   | _ => .none
 
-/-- the receiver of the `newm` op: a type of the alphabet, `Init[T]` or the default `Init` -/
+/-- the receiver of the `newm` op: a type of the alphabet, `Init[T, initArgs…]` or the default `Init` -/
 inductive RecvTy where
   | plain (t : Ty)
-  | init (t : Ty)
+  | init (t : Ty) (initArgs : List Val)
   | initDefault
 
 def recvOf : RecvTy → Option (Recv Ty Val)
@@ -49,8 +52,8 @@ def recvOf : RecvTy → Option (Recv Ty Val)
     | .some c => some (.ctor t (ctorCall c))
     | .none => some (.noCtor t)
     | .unmodelled => none
-  | .init t => match ctorOf pf t with
-    | .some c => some (.init t (initCall c))
+  | .init t ia => match ctorOf pf t with
+    | .some c => some (.init t (initCall c ia))
     | .none => some .initNoCtor
     | .unmodelled => none
   | .initDefault => some .initDefault
